@@ -3028,24 +3028,21 @@ impl PolicySet {
     ///
     /// This will error if the policy is not a static policy.
     pub fn remove_static(&mut self, policy_id: PolicyId) -> Result<Policy, PolicySetError> {
-        let Some(policy) = self.policies.remove(&policy_id) else {
-            return Err(PolicySetError::PolicyNonexistent(
-                policy_set_errors::PolicyNonexistentError { policy_id },
-            ));
-        };
-        if self
-            .ast
-            .remove_static(&ast::PolicyID::from_string(&policy_id))
-            .is_ok()
+        // Only touch `self.policies` once the removal is known to succeed, so
+        // that a failed removal leaves the iteration order as it was
+        if self.policies.contains_key(&policy_id)
+            && self
+                .ast
+                .remove_static(&ast::PolicyID::from_string(&policy_id))
+                .is_ok()
         {
-            Ok(policy)
-        } else {
-            //Restore self.policies
-            self.policies.insert(policy_id.clone(), policy);
-            Err(PolicySetError::PolicyNonexistent(
-                policy_set_errors::PolicyNonexistentError { policy_id },
-            ))
+            if let Some(policy) = self.policies.remove(&policy_id) {
+                return Ok(policy);
+            }
         }
+        Err(PolicySetError::PolicyNonexistent(
+            policy_set_errors::PolicyNonexistentError { policy_id },
+        ))
     }
 
     /// Add a `Template` to the `PolicySet`
@@ -3061,26 +3058,30 @@ impl PolicySet {
     /// This will error if any policy is linked to the template.
     /// This will error if `policy_id` is not a template.
     pub fn remove_template(&mut self, template_id: PolicyId) -> Result<Template, PolicySetError> {
-        let Some(template) = self.templates.remove(&template_id) else {
+        // `self.templates` is only touched once the removal is known to succeed,
+        // so that a failed removal leaves the iteration order as it was
+        if !self.templates.contains_key(&template_id) {
             return Err(PolicySetError::TemplateNonexistent(
                 policy_set_errors::TemplateNonexistentError { template_id },
             ));
-        };
+        }
         // If self.templates and self.ast disagree, authorization cannot be trusted.
         #[expect(clippy::panic, reason = "We just found the policy in self.templates")]
         match self
             .ast
             .remove_template(&ast::PolicyID::from_string(&template_id))
         {
-            Ok(_) => Ok(template),
+            Ok(_) => self.templates.remove(&template_id).ok_or_else(|| {
+                PolicySetError::TemplateNonexistent(policy_set_errors::TemplateNonexistentError {
+                    template_id,
+                })
+            }),
             Err(ast::PolicySetTemplateRemovalError::RemoveTemplateWithLinksError(_)) => {
-                self.templates.insert(template_id.clone(), template);
                 Err(PolicySetError::RemoveTemplateWithActiveLinks(
                     policy_set_errors::RemoveTemplateWithActiveLinksError { template_id },
                 ))
             }
             Err(ast::PolicySetTemplateRemovalError::NotTemplateError(_)) => {
-                self.templates.insert(template_id.clone(), template);
                 Err(PolicySetError::RemoveTemplateNotTemplate(
                     policy_set_errors::RemoveTemplateNotTemplateError { template_id },
                 ))
@@ -3256,18 +3257,22 @@ impl PolicySet {
     /// Unlink a template-linked policy from the policy set.
     /// Returns the policy that was unlinked.
     pub fn unlink(&mut self, policy_id: PolicyId) -> Result<Policy, PolicySetError> {
-        let Some(policy) = self.policies.remove(&policy_id) else {
+        // `self.policies` is only touched once the unlinking is known to succeed,
+        // so that a failed unlinking leaves the iteration order as it was
+        if !self.policies.contains_key(&policy_id) {
             return Err(PolicySetError::LinkNonexistent(
                 policy_set_errors::LinkNonexistentError { policy_id },
             ));
-        };
+        }
         // If self.policies and self.ast disagree, authorization cannot be trusted.
         #[expect(clippy::panic, reason = "We just found the policy in self.policies")]
         match self.ast.unlink(&ast::PolicyID::from_string(&policy_id)) {
-            Ok(_) => Ok(policy),
+            Ok(_) => self.policies.remove(&policy_id).ok_or_else(|| {
+                PolicySetError::LinkNonexistent(policy_set_errors::LinkNonexistentError {
+                    policy_id,
+                })
+            }),
             Err(ast::PolicySetUnlinkError::NotLinkError(_)) => {
-                //Restore self.policies
-                self.policies.insert(policy_id.clone(), policy);
                 Err(PolicySetError::UnlinkLinkNotLink(
                     policy_set_errors::UnlinkLinkNotLinkError { policy_id },
                 ))
